@@ -59,6 +59,28 @@ def extra_checks(ctx):
         for d in diffs:
             fails.append({'key': d['what'], 'kind': SP.kind_of(d), 'scenario': scw, 'policy': pdesc,
                           'schedule': r.schedule, 'diff': d})
+    if not ctx.quick and ctx.shard < 4:
+        # partial aspect: the REAL primitives (threads, Barrier, Queue, TCP over loopback), no scheduler
+        import os
+        import subprocess
+        import sys
+        env = dict(os.environ, PYTHONPATH=common.REPO)
+        try:
+            p = subprocess.run([sys.executable, os.path.join(common.VERIF, 'harness', 'tcp_smoke.py'), str(ctx.seed * 4 + ctx.shard)],
+                               env=env, stdout=subprocess.PIPE, stderr=subprocess.STDOUT, text=True, timeout=150)
+            rc, out = p.returncode, p.stdout
+        except subprocess.TimeoutExpired as e:
+            rc, out = 1, 'watchdog of the harness: no exit after 150 s ' + str(e.stdout)[-300:]
+        if rc == 3:
+            ctx.count('tcp_smoke_unavailable')
+        else:
+            ctx.count('tcp_smoke_sessions')
+            ctx.count('_cases')
+            if rc != 0:
+                fails.append({'key': 'tcp-session-did-not-complete', 'kind': 'counterexample', 'scenario': None,
+                              'diff': {'what': 'real-thread session over loopback TCP did not complete', 'output': out[-1200:],
+                                       'seed': ctx.seed * 4 + ctx.shard,
+                                       'rerun': 'PYTHONPATH=/repo /venv/bin/python harness/tcp_smoke.py <seed>'}})
     if not ctx.quick:
         for kinds in (['passout'], [None]):
             sc = session.gen_scenario(random.Random(f'sweep/{ctx.seed}/{kinds}'), 1, fancy=True, kinds=kinds)
